@@ -46,9 +46,18 @@
     prefixes) there is a monotone map from stored Contact values to counted header lines such that, whenever that
     header is itself stored, it has type Contact, and the value's V is non-empty and lies inside that header's Val;
     the same for P-Asserted-Identity. `value_nonempty` removes the "empty V" exception of the per-line statement.
-  NOT proved: that the associated header is exactly the HNo-th header of its type (monotone and of the right type only); trimming of white space inside name-addr spans (the code is not consistent there: `;tag= ,x` keeps the
-  blank inside V and the parameter span, `;tag=1 ,x` does not — the spans are still nested); strictness
-  `cseq end < method`.
+  EXACTLY which header line each stored value belongs to (`Sipsp.Proofs.HnoExact`, every input, any capacities, one call
+  and every chunk schedule from Init): `values_exact_init`, `values_exact_schedule_init`, `parseHeaders(_init)` give
+  `HxAssoc` for the Contact list and the identity list — the accepted lines of the type, in message order, are `HNo` in
+  number, each contributes at least one value, the counts sum to N, and the values with indices in the i-th cumulative
+  block are non-empty and lie inside the Val of the i-th line (`assoc_meaning_all_stored`: when all headers are stored
+  the lines are the stored headers of that type; `assoc_value_line`, `block_exists`, `block_unique`: every value has
+  exactly one line); `cseq_number_before_method(_init / _schedule_init)`, `parseCSeqVal_strict`: the CSeq number ends
+  strictly before the method starts, both non-empty; `value_last_byte`, `value_last_byte_ok`, `params_last_byte`,
+  `msg_trim_init`, `msg_trim_schedule_init`: V and the parameter span never end with SP / HT / CR / LF, the ONE exception
+  being the verdict "more values" with a white-space run directly after `;` or `=` before the comma (`<a>;tag= ,<b>`).
+  NOT proved: that a Contact header's Val starts with its first value and ends with its last (containment only);
+  leading / inner white space of the spans; the `first` / `last` overflow slots of the contact list.
 -/
 import Sipsp.Proofs.Layout
 import Sipsp.Properties.C01
@@ -57,6 +66,7 @@ import Sipsp.Proofs.FieldsLo
 import Sipsp.Proofs.NaNest
 import Sipsp.Proofs.SigCovered
 import Sipsp.Proofs.PaiLines
+import Sipsp.Proofs.HnoExact
 
 namespace Sipsp.C05
 open Sipsp
@@ -360,5 +370,102 @@ theorem values_in_headers_meaning : type_of% @Sipsp.PlMsg.meaning := @Sipsp.PlMs
     "more values", the reported value span `V` has at least one byte — every header kind, EVERY input within the
     65,535-byte limit -/
 theorem value_nonempty : type_of% @Sipsp.pn_value_nonempty := @Sipsp.pn_value_nonempty
+
+/-! ### which header line each stored Contact / identity value belongs to (exactly), CSeq number strictly before the method, trimming of name-addr spans (proved in `Sipsp.Proofs.HnoExact`) -/
+
+/-- **`HxAssoc`, when the header array holds all the headers** (`hl.n ≤` its capacity): let `idx` be the positions of the
+    stored headers of type `ty`, in order.  Then `HNo` is the number of these headers, and there are counts `cnt` — one
+    for each of them, each at least 1, with sum `N` — such that the values of the `i`-th header of type `ty` are exactly
+    those with index in `[hxStart cnt i, hxStart cnt (i+1))` (cumulative counts): each of them that is stored has at
+    least one byte and lies inside the `val` of THAT header; every value index below `N` is in exactly one of the blocks
+    (`hx_block_exists`, `hx_block_unique`) -/
+theorem assoc_meaning_all_stored : type_of% @Sipsp.HxAssoc.meaning_all_stored := @Sipsp.HxAssoc.meaning_all_stored
+
+/-- **`HxAssoc`, any capacity of the header array**: the same with a ghost function `tyOf` for the types of ALL accepted
+    header lines (it agrees with the stored ones); a value is compared with the `val` of its header only if that header
+    is stored -/
+theorem assoc_meaning : type_of% @Sipsp.HxAssoc.meaning := @Sipsp.HxAssoc.meaning
+
+/-- **every stored value has its header line**: for each value index `k < N` there is exactly one line number `i < HNo`
+    with `k` in the block of `i`; if the header array holds all headers, the `i`-th stored header of type `ty` exists
+    and the value lies inside its `val` -/
+theorem assoc_value_line : type_of% @Sipsp.HxAssoc.value_line := @Sipsp.HxAssoc.value_line
+
+/-- every value index below the sum of the counts belongs to exactly one block of the cumulative counts -/
+theorem block_exists : type_of% @Sipsp.hx_block_exists := @Sipsp.hx_block_exists
+
+theorem block_unique : type_of% @Sipsp.hx_block_unique := @Sipsp.hx_block_unique
+
+/-- **header block** (same hypotheses as `pl_parseHeaders`: a legitimate list whose current slot is new, i.e. one call
+    of ParseHeaders from the start of a line; buffers within the 65,535-byte limit): ParseHeaders keeps / establishes
+    the exact association -/
+theorem parseHeaders : type_of% @Sipsp.hx_parseHeaders := @Sipsp.hx_parseHeaders
+
+/-- **ParseHeaders, one call on the header list and values object of an Init object** -/
+theorem parseHeaders_init : type_of% @Sipsp.hx_parseHeaders_init := @Sipsp.hx_parseHeaders_init
+
+/-- **[C05] message level, one call on an object produced by Init** (any previous contents, caller arrays of any
+    capacity or none; EVERY input within the 65,535-byte limit) -/
+theorem values_exact_init : type_of% @Sipsp.hx_values_exact_init := @Sipsp.hx_values_exact_init
+
+/-- **[C05] … under every chunk schedule, from Init**: if the chain of resumed calls over growing prefixes ends with
+    OK, the final object satisfies the same statement -/
+theorem values_exact_schedule_init : type_of% @Sipsp.hx_values_exact_schedule_init := @Sipsp.hx_values_exact_schedule_init
+
+/-- **one accepted header line** (header object that has not reached the colon, in particular a new one; any buffer,
+    any values object): the counters of the Contact list and of the identity list, relative to the type of the
+    accepted header -/
+theorem line_cnt : type_of% @Sipsp.hx_line_cnt := @Sipsp.hx_line_cnt
+
+/-- **`cseq_number_before_method`, ParseCSeqVal**: whenever ParseCSeqVal says OK — on a new object, or on any object
+    returned by earlier calls on the same buffer (`HxCsI`, which holds of every object in the initial state and is kept
+    by every call that asks for more bytes) — the number field has at least one byte, ends STRICTLY before the start of
+    the method field, and the method field has at least one byte.  Every input within the 65,535-byte limit. -/
+theorem parseCSeqVal_strict : type_of% @Sipsp.hx_parseCSeqVal_strict := @Sipsp.hx_parseCSeqVal_strict
+
+/-- one call on a new object -/
+theorem parseCSeqVal_strict_new : type_of% @Sipsp.hx_parseCSeqVal_strict_new := @Sipsp.hx_parseCSeqVal_strict_new
+
+/-- **`cseq_number_before_method`**: in a message object that satisfies `HxMsg` (every successful parse from Init, see
+    below), if the CSeq object is parsed then the number field has at least one byte, ends STRICTLY before the start of
+    the method field, and the method field has at least one byte -/
+theorem cseq_number_before_method : type_of% @Sipsp.hx_cseq_number_before_method := @Sipsp.hx_cseq_number_before_method
+
+/-- … one successful ParseSIPMsg call on an object produced by Init; "a CSeq header was accepted" = its type flag is set
+    (also when the header array was too small to store it) -/
+theorem cseq_number_before_method_init : type_of% @Sipsp.hx_cseq_number_before_method_init := @Sipsp.hx_cseq_number_before_method_init
+
+/-- … every chain of resumed calls over growing prefixes, from Init -/
+theorem cseq_number_before_method_schedule_init : type_of% @Sipsp.hx_cseq_number_before_method_schedule_init := @Sipsp.hx_cseq_number_before_method_schedule_init
+
+/-- **the last byte of a reported name-addr value `V`** (ParseNameAddrPVal started on a new object, verdict OK or "more
+    values", any header kind, EVERY input within the 65,535-byte limit): the byte before the end of `V` is not white
+    space (SP, HT, CR, LF) — except in ONE shape: the verdict is "more values", the byte at the end of `V` is the comma,
+    and `V` ends with a non-empty run of white space that directly follows a `;` (an empty parameter: `<a>; ,<b>`) or a
+    `=` (an empty parameter value: `<a>;tag= ,<b>`).  After verdict OK (last value of a line, From / To) `V` never ends
+    with white space. -/
+theorem value_last_byte : type_of% @Sipsp.hx_value_last_byte := @Sipsp.hx_value_last_byte
+
+/-- after verdict OK (the last value of a header line; From, To, …) the value never ends with white space -/
+theorem value_last_byte_ok : type_of% @Sipsp.hx_value_last_byte_ok := @Sipsp.hx_value_last_byte_ok
+
+/-- **the parameter span**: if reported, it ends exactly where `V` ends (`NaNest`), so the same statement holds for its
+    last byte -/
+theorem params_last_byte : type_of% @Sipsp.hx_params_last_byte := @Sipsp.hx_params_last_byte
+
+/-- **[C05] trimming, message level, one call on an Init object**: after a successful ParseSIPMsg the From and To
+    values (if parsed) do not end with white space; every stored Contact / identity value does not end with white
+    space, except in the one shape of `HxTrC` (`; ,` / `= ,`) -/
+theorem msg_trim_init : type_of% @Sipsp.hx_msg_trim_init := @Sipsp.hx_msg_trim_init
+
+/-- … under every chunk schedule, from Init (the buffer is the one of the call that completed the message) -/
+theorem msg_trim_schedule_init : type_of% @Sipsp.hx_msg_trim_schedule_init := @Sipsp.hx_msg_trim_schedule_init
+
+/-- **any property of completed name-addr values holds of From, To and every stored Contact / identity value** after one
+    successful ParseSIPMsg call on an object produced by Init -/
+theorem msg_vals_init : type_of% @Sipsp.hx_msg_vals_init := @Sipsp.hx_msg_vals_init
+
+/-- `HxTrC`, spelled out (`E` = the end of the span) -/
+theorem trim_meaning : type_of% @Sipsp.HxTrC.meaning := @Sipsp.HxTrC.meaning
 
 end Sipsp.C05
